@@ -112,7 +112,11 @@ class Builder:
         a.push(0).push(0)
         if kind == "CALL":
             a.push(0)
-        a.push(to).push(0xFFFF).op(kind).op("POP")
+        if callable(to):
+            to(a)
+        else:
+            a.push(to)
+        a.push(0xFFFF).op(kind).op("POP")
         for i in range(nret):
             a.push(0x700 + 32 * i).op("MLOAD")
             self.obs()
@@ -128,6 +132,11 @@ class Builder:
             self.vm_call(CR.S["stopPrank"], [])
         elif k in ("call", "staticcall"):
             self.call_reporter("CALL" if k == "call" else "STATICCALL")
+        elif k == "call_sym":
+            # the reporter is called through a symbolic address with two feasible aliases (R and its twin at R ^ 1)
+            i = ch.pick(self.n_in, lbl + ".i")
+            self.call_reporter("CALL", lambda a_: (a_.push(1), a_.push(32 * i), a_.op("CALLDATALOAD"), a_.op("AND"),
+                                                   a_.push(R_ADDR), a_.op("XOR")), 3)
         elif k == "call_nested":
             self.call_reporter("CALL", N_ADDR, 3)
         elif k == "call_pranker":
@@ -244,7 +253,7 @@ def build_world(ch, options):
     b = Builder(ch, n_in)
     mode = ch.choose(["prank", "prank", "state", "fresh", "mixed"], "w.mode")
     pool = {"prank": ["prank", "prank2", "startPrank", "startPrank2", "stopPrank", "call", "call", "staticcall", "call_nested",
-                      "call_pranker", "create", "cheat_between"],
+                      "call_pranker", "create", "cheat_between", "call_sym"],
             "state": ["deal", "store_load", "etch", "block", "call"],
             "fresh": ["fresh", "fresh", "call"],
             "mixed": ["prank", "startPrank", "stopPrank", "call", "staticcall", "create", "deal", "store_load", "block", "fresh",
@@ -264,7 +273,7 @@ def build_world(ch, options):
             active = "keep"
         elif k == "stopPrank":
             active = None
-        elif k in ("call", "staticcall", "call_nested", "call_pranker", "create") and active == "once":
+        elif k in ("call", "staticcall", "call_nested", "call_pranker", "create", "call_sym") and active == "once":
             active = None
         if i == branch_at:
             # a symbolic branch between a prank and its consumption: the prank record must be copied, not shared
@@ -275,7 +284,7 @@ def build_world(ch, options):
         b.step(k, f"w.s{i}")
     main = b.finish()
     accounts = {gen.TARGET: main, R_ADDR: reporter_runtime(), N_ADDR: nested_runtime(), H_ADDR: pranking_helper_runtime(),
-                ST_ADDR: stateful_runtime()}
+                ST_ADDR: stateful_runtime(), R_ADDR ^ 1: reporter_runtime()}
     w = E.EWorld(accounts=accounts, target=gen.TARGET, calldata=[("sym", f"in_cd{i}", 32) for i in range(n_in)],
                  caller=gen.EOA1, origin=gen.EOA1, value=0, balances={}, options=options)
     w.meta = dict(mode=mode, steps=b.steps)
